@@ -93,7 +93,8 @@ class Pipeline:
 
         def cf(rs):
             arg = sig if o.get('layout', 'plain') != 'plain' else np.array(sig, dtype=float)
-            return compute_features(arg, o['fs'], o['f_range'], return_samples=rs, **kw)
+            fs_, fr_ = S.call_fs(o)
+            return compute_features(arg, fs_, fr_, return_samples=rs, **kw)
         try:
             df = cf(True)
         except Exception as e:      # noqa
